@@ -183,6 +183,10 @@ func (c *FnCtx) bindCaptured(st *State, fi *FuncInfo) {
 			return true
 		}
 		seen[v] = true
+		if c.captured == nil {
+			c.captured = map[*types.Var]bool{}
+		}
+		c.captured[v] = true
 		t := c.fresh(st, v.Name(), v.Type())
 		c.readFacts(st, t)
 		st.vars[v] = t
@@ -208,6 +212,11 @@ func (c *FnCtx) checkExit(o Outcome, fc *FuncContract, entry *State) {
 			if rv := sig.Results().At(i); rv.Name() != "" && rv.Name() != "_" {
 				env[rv.Name()] = r
 			}
+		}
+	}
+	for v := range c.captured {
+		if t, ok := st.vars[v]; ok {
+			env[v.Name()] = t
 		}
 	}
 	sc := &SpecCtx{c: c, pkg: c.fi.Pkg, pos: c.fi.Body.Pos(), env: env, st: st, old: entry}
